@@ -25,6 +25,13 @@ def gen_shared(rnd):
     r['r0'].setdefault('depends', []).extend(rnd.sample(['u1', 'u2'], 2))
     r['r0']['depends'].append({'name': 'sb-helper', 'if': '$(is-sandbox-enabled)'})
     r['r0']['depends'].insert(0, {'name': 'sbx', 'use': ['sandbox'], 'forward': True})
+    # a shared recipe that takes its sandbox from its OWN dependency, reached once without and once with that sandbox already
+    # inherited; below it a package whose environment depends on the sandbox that was passed in
+    r['sblib'] = {'environment': {'IN_SANDBOX': '$(is-sandbox-enabled)'}, 'buildScript': 'true\n', 'packageVars': ['IN_SANDBOX'], 'packageScript': 'echo $IN_SANDBOX > result.txt\n'}
+    r['sb2'] = {'packageScript': 'mkdir -p bin\n', 'provideSandbox': {'paths': ['/usr/bin']}}
+    r['xs'] = {'depends': ['sblib', {'name': 'sb2', 'use': ['sandbox']}], 'buildScript': 'true\n', 'packageScript': 'true\n'}
+    r['ys'] = {'depends': [{'name': 'sb2', 'use': ['sandbox'], 'forward': True}, 'xs'], 'buildScript': 'true\n', 'packageScript': 'true\n'}
+    r['top2'] = {'root': True, 'depends': rnd.sample(['xs', 'ys'], 2), 'buildScript': 'true\n', 'packageScript': 'true\n'}
     return m
 
 def ls(p, sandbox):
@@ -48,6 +55,16 @@ def one_history(seed, steps):
                     if ('__error__' in warm) != ('__error__' in cold) or ('__error__' not in warm and warm != cold):
                         diff = sorted(k for k in set(warm) | set(cold) if warm.get(k) != cold.get(k))[:6]
                         return {'kind': 'warm-graph-differs-from-cold', 'sandbox': sandbox, 'history': log, 'differing_packages': diff}, log
+                    # in-memory memoisation (PackageMatcher) against the same calculation with every memo lookup missing
+                    c2 = cold_copy(p, model)          # (a fresh copy: the first cold query left its package cache file behind)
+                    try: nomemo = c2.query(sandbox=sandbox, env={'VERIF_NOMEMO': '1'})
+                    except RuntimeError as ex: nomemo = {'__error__': str(ex)[-200:]}
+                    finally: c2.cleanup()
+                    if ('__error__' in nomemo) != ('__error__' in cold) or ('__error__' not in cold and nomemo != cold):
+                        diff = sorted(k for k in set(nomemo) | set(cold) if nomemo.get(k) != cold.get(k))[:6]
+                        return {'kind': 'memoised-graph-differs-from-unmemoised', 'sandbox': sandbox, 'history': log, 'differing_packages': diff,
+                                'memoised': {k: cold.get(k, {}).get('steps', {}).get('dist', {}).get('env') for k in diff[:2]} if '__error__' not in cold else cold,
+                                'unmemoised': {k: nomemo.get(k, {}).get('steps', {}).get('dist', {}).get('env') for k in diff[:2]} if '__error__' not in nomemo else nomemo}, log
                     w, cl = ls(p, sandbox), ls(c, sandbox)
                     if w != cl:
                         return {'kind': 'warm-query-differs-from-cold', 'sandbox': sandbox, 'history': log, 'warm_only': sorted(set(w[1]) - set(cl[1]))[:6], 'cold_only': sorted(set(cl[1]) - set(w[1]))[:6]}, log
@@ -76,5 +93,5 @@ def replay(rep):
             if w is not None: return {'reproduced': True, 'tried': tried, 'witness': w}
     if problems > tried // 2: return {'reproduced': None, 'detail': 'harness problems in %d of %d cases' % (problems, tried)}
     return {'reproduced': False, 'tried': tried, 'distinct': len(distinct), 'samples': samples,
-            'bound': '%d generated projects with shared sub-recipes under two tool variants and a sandbox-dependent dependency, %d edits each, both sandbox settings after every edit' % (n, steps),
+            'bound': '%d generated projects with shared sub-recipes under two tool variants, a sandbox-dependent dependency and a recipe taking its sandbox from its own dependency (memoised vs. memo switched off), %d edits each, both sandbox settings after every edit' % (n, steps),
             'detail': 'package graph and recursive listing with warm caches equal the cold computation'}
